@@ -12,13 +12,13 @@ import (
 // ---------- shared anchors (resolved by role) ----------
 
 type blsAnchors struct {
-	pubT, prT         *types.Named
-	flagField, ptFld  string // identity flag and point field of the public key struct
-	sigLen, pkLen     int64
-	hashLen           int64
-	valid, invalid    int64
-	verify, sign      *ssa.Function
-	checkHasher       *ssa.Function
+	pubT, prT          *types.Named
+	flagField, ptFld   string // identity flag and point field of the public key struct
+	sigLen, pkLen      int64
+	hashLen            int64
+	valid, invalid     int64
+	verify, sign       *ssa.Function
+	checkHasher        *ssa.Function
 	isInfinity, isZero *ssa.Function
 }
 
@@ -705,8 +705,8 @@ func ruleC02(w *World) {
 			w.undecided("C02.R2", fnKey(fn)+"/mapupdate", fn.Pos(), "expected the two grouping maps to be filled")
 		}
 		w.ruleErrorClauses("C02.R2", fn, map[string][]string{
-			fmt.Sprintf("len(%s) == 0", pks):              {"wrap:sentinel:errBLSAggregateEmptyList", "sentinel:errBLSAggregateEmptyList"},
-			fmt.Sprintf("len(%s) != len(%s)", msgs, pks):  {"ctor:invalidInputsErrorf"},
+			fmt.Sprintf("len(%s) == 0", pks):             {"wrap:sentinel:errBLSAggregateEmptyList", "sentinel:errBLSAggregateEmptyList"},
+			fmt.Sprintf("len(%s) != len(%s)", msgs, pks): {"ctor:invalidInputsErrorf"},
 			".(*" + a.pubT.Obj().Name() + ")#1 == false": {"wrap:sentinel:errNotBLSKey", "sentinel:errNotBLSKey"},
 		})
 		// identity key ⇒ (false, nil)
@@ -860,52 +860,114 @@ func onlyCgoVerdicts(v ssa.Value, seen map[ssa.Value]bool) bool {
 // one of the edge's atomic facts) and leads directly to a returning block, the returned error must
 // belong to the allowed classes; each trigger must decide at least one return.
 func (w *World) ruleErrorClauses(rule string, fn *ssa.Function, table map[string][]string) {
+	edges := w.errorEdges(fn, func(x string) string { return x }, 0)
 	for trig, allowed := range table {
 		n := 0
-		for _, b := range fn.Blocks {
-			if len(b.Instrs) == 0 {
+		for _, e := range edges {
+			if !(e.fact == trig || strings.HasSuffix(e.fact, trig)) {
 				continue
 			}
-			ifi, ok := b.Instrs[len(b.Instrs)-1].(*ssa.If)
-			if !ok {
-				continue
+			n++
+			good := false
+			for _, al := range allowed {
+				if e.cls == al || strings.HasPrefix(e.cls, al) {
+					good = true
+				}
 			}
-			for k, pol := range []bool{true, false} {
-				var fs []Fact
-				condFacts(ifi.Cond, pol, ifi, &fs)
-				hit := false
-				for _, f := range fs {
-					if f.Expr == trig || strings.HasSuffix(f.Expr, trig) {
-						hit = true
-					}
-				}
-				if !hit {
-					continue
-				}
-				succ := b.Succs[k]
-				r, ok := succ.Instrs[len(succ.Instrs)-1].(*ssa.Return)
-				if !ok {
-					continue
-				}
-				errv := r.Results[len(r.Results)-1]
-				cls := w.errClass(errv)
-				if cls == "nil" {
-					continue
-				}
-				n++
-				good := false
-				for _, al := range allowed {
-					if cls == al || strings.HasPrefix(cls, al) {
-						good = true
-					}
-				}
-				w.check(good, rule, fnKey(fn)+"/error-clause:"+trig, r.Pos(), "documented error class "+cls, "condition `"+trig+"` yields error class "+cls+", documented: "+strings.Join(allowed, " or "))
-			}
+			w.check(good, rule, fnKey(fn)+"/error-clause:"+trig, e.pos, "documented error class "+e.cls, "condition `"+trig+"` yields error class "+e.cls+", documented: "+strings.Join(allowed, " or "))
 		}
 		if n == 0 {
 			w.viol(rule, fnKey(fn)+"/error-clause:"+trig, fn.Pos(), "no error return is decided by condition `"+trig+"` (the documented error clause is missing)")
 		}
 	}
+}
+
+type errEdge struct {
+	fact string
+	cls  string
+	pos  token.Pos
+	top  *ssa.BasicBlock // the deciding block in the function the query started from
+}
+
+// errorEdges: (condition, error class) of every branch edge of fn that leads straight to an error
+// return. An edge `h(args) != nil` that returns h's error unchanged contributes h's own edges, with
+// h's parameters replaced by the arguments (a check moved into a helper keeps its clause).
+func (w *World) errorEdges(fn *ssa.Function, subst func(string) string, depth int) []errEdge {
+	return w.errorEdgesT(fn, subst, depth, nil)
+}
+
+func (w *World) errorEdgesT(fn *ssa.Function, subst func(string) string, depth int, top *ssa.BasicBlock) []errEdge {
+	var out []errEdge
+	for _, b := range fn.Blocks {
+		if len(b.Instrs) == 0 {
+			continue
+		}
+		ifi, ok := b.Instrs[len(b.Instrs)-1].(*ssa.If)
+		if !ok {
+			continue
+		}
+		for k, pol := range []bool{true, false} {
+			succ := b.Succs[k]
+			r, ok := succ.Instrs[len(succ.Instrs)-1].(*ssa.Return)
+			if !ok || len(r.Results) == 0 {
+				continue
+			}
+			errv := r.Results[len(r.Results)-1]
+			if !isErrorType(errv.Type()) {
+				continue
+			}
+			var fs []Fact
+			condFacts(ifi.Cond, pol, ifi, &fs)
+			cls := w.errClass(errv)
+			if cls == "nil" {
+				continue
+			}
+			// pass-through of a helper's error
+			if depth < 2 {
+				var hc *ssa.Call
+				switch x := stripConv(errv).(type) {
+				case *ssa.Call:
+					hc = x
+				case *ssa.Extract:
+					hc, _ = x.Tuple.(*ssa.Call)
+				}
+				if hc != nil {
+					if h := hc.Call.StaticCallee(); h != nil && inModule(h) && h.Blocks != nil && isNewHelper(h) {
+						through := false
+						for _, f := range fs {
+							if strings.HasSuffix(f.Expr, " != nil") && strings.HasPrefix(f.Expr, render(hc)) {
+								through = true
+							}
+						}
+						if through {
+							hsub := func(x string) string {
+								for i, p := range h.Params {
+									if i < len(hc.Call.Args) && render(p) == p.Name() {
+										x = replaceIdent(x, p.Name(), render(hc.Call.Args[i]))
+									}
+								}
+								return subst(x)
+							}
+							t := top
+							if t == nil {
+								t = b
+							}
+							out = append(out, w.errorEdgesT(h, hsub, depth+1, t)...)
+							continue
+						}
+					}
+				}
+			}
+			t := top
+			if t == nil {
+				t = b
+			}
+			for _, f := range fs {
+				out = append(out, errEdge{subst(f.Expr), cls, r.Pos(), t})
+			}
+		}
+	}
+	return out
 }
 
 // ---------- C03 (Go side) ----------
@@ -1077,9 +1139,9 @@ func ruleC03(w *World) {
 		}
 	}
 	w.ruleErrorClauses("C03.R4", fn, map[string][]string{
-		fmt.Sprintf("len(%s) == 0", pks):                 {"wrap:sentinel:errBLSAggregateEmptyList", "sentinel:errBLSAggregateEmptyList"},
-		fmt.Sprintf("len(%s) != len(%s)", pks, sigs):     {"ctor:invalidInputsErrorf"},
-		".(*" + a.pubT.Obj().Name() + ")#1 == false":    {"wrap:sentinel:errNotBLSKey", "sentinel:errNotBLSKey"},
+		fmt.Sprintf("len(%s) == 0", pks):             {"wrap:sentinel:errBLSAggregateEmptyList", "sentinel:errBLSAggregateEmptyList"},
+		fmt.Sprintf("len(%s) != len(%s)", pks, sigs): {"ctor:invalidInputsErrorf"},
+		".(*" + a.pubT.Obj().Name() + ")#1 == false": {"wrap:sentinel:errNotBLSKey", "sentinel:errNotBLSKey"},
 	})
 }
 
@@ -1096,6 +1158,10 @@ func sliceBase(v ssa.Value) ssa.Value {
 		case *ssa.Convert:
 			v = x.X
 		default:
+			if in := helperValue(v); in != nil {
+				v = in
+				continue
+			}
 			return v
 		}
 	}
@@ -1163,7 +1229,7 @@ func ruleC04(w *World) {
 		}
 		w.ruleErrorClauses("C04.R2", fn, map[string][]string{
 			fmt.Sprintf("]) != %d", a.sigLen): {"wrap:sentinel:errInvalidSignature", "sentinel:errInvalidSignature"},
-			fmt.Sprintf(") == %d", a.invalid):   {"sentinel:errInvalidSignature", "wrap:sentinel:errInvalidSignature"},
+			fmt.Sprintf(") == %d", a.invalid): {"sentinel:errInvalidSignature", "wrap:sentinel:errInvalidSignature"},
 		})
 		// success return only when C returned valid, returning the buffer C wrote
 		sites := cgoCalls(fn, "E1_sum_vector_byte")
